@@ -3,6 +3,8 @@
 -/
 import HLV.Props.HoldFamily
 import HLV.Model.Env
+import HLV.Logic.Kill
+import HLV.Static.KillRules
 namespace HLV
 
 -- @theorem C12_no_leak_under_any_number_of_faults : for every bound n on panicking raw operations (1 = one-shot, any n = persistent), every well-typed program keeps the hold discipline: releases only of held locks, nothing held when a call has ended
@@ -94,5 +96,44 @@ theorem C12_killed_is_forever (pol : Policy) (e : Env) (t : Tid) (o : Op) (fault
   | poisonClear p => exact hk
   | poisonGet p => exact hk
   | mark k => exact hk
+
+/-! ### the kill flag at statement granularity (`Model/Kill.lean`, `Logic/Kill.lean`) -/
+
+set_option maxRecDepth 1000000
+
+-- @theorem C12_kill_flag_is_tested_again_after_the_raw_acquisition_in_the_source : in the source as it is now, every acquiring function of `impl RawLock for Mutex / RwLock` tests the kill flag before the raw acquisition and again after it, with the matching raw release after the second test; every raw acquisition (in acquiring functions) and every raw release (in releasing functions) is followed by the recovery closure that stores the flag; six acquiring and three releasing functions carry the protocol themselves (the others delegate)
+theorem C12_kill_flag_is_tested_again_after_the_raw_acquisition_in_the_source :
+    Static.c12_killFlagProtocol = [] ∧ Static.c12_recovery = [] ∧ Static.c12_protocolFnsSeen = (6, 3) := by
+  decide +kernel
+
+-- @theorem C12_no_guard_is_handed_out_once_the_kill_flag_is_up : in the statement-level protocol (flag test; raw acquire; flag test; — release: raw unlock; — a panicking raw operation: store the flag), for any number of threads and every schedule of blocking and try acquisitions, releases, raw panics and flag stores: if the flag is up after the schedule has run, no further step of any thread hands a guard to anybody
+theorem C12_no_guard_is_handed_out_once_the_kill_flag_is_up (n : Nat) (p : List (Nat × Kill.Act)) (t u : Nat)
+    (a : Kill.Act) (s' : Kill.St)
+    (hk : (Kill.run true (Kill.init n) p).killed = true)
+    (h : Kill.step true (Kill.run true (Kill.init n) p) t a = some s') :
+    Kill.grants (Kill.run true (Kill.init n) p) s' u = false :=
+  Kill.no_guard_once_flag_is_up (Kill.init n) p t u a s' hk h
+
+-- @theorem C12_kill_flag_is_never_lowered : once stored, the flag stays up along every schedule
+theorem C12_kill_flag_is_never_lowered (rt : Bool) (n : Nat) (p q : List (Nat × Kill.Act))
+    (hk : (Kill.run rt (Kill.init n) p).killed = true) : (Kill.run rt (Kill.init n) (p ++ q)).killed = true := by
+  rw [Kill.run_append]; exact Kill.run_killed_mono rt q _ hk
+
+-- @theorem C12_kill_protocol_keeps_exclusion : the second test and the give-back release do not disturb exclusion: along every schedule at most one thread has a guard, and a refused thread has returned the raw lock
+theorem C12_kill_protocol_keeps_exclusion (rt : Bool) (n : Nat) (sched : List (Nat × Kill.Act)) (t u : Nat)
+    (ht : (Kill.run rt (Kill.init n) sched).pc t = .holding) (hu : (Kill.run rt (Kill.init n) sched).pc u = .holding) :
+    t = u :=
+  Kill.exclusion rt n sched t u ht hu
+
+-- @theorem C12_model_exhibits_D15_D15b_and_the_residual_window : the protocol without the second test hands a guard to a waiter (D15) and to a try in flight (D15b) after the flag went up; with the second test both are refused; and the window that remains is real: a waiter can pass the second test between a raw unlock that releases-then-panics and the store of the flag
+theorem C12_model_exhibits_D15_D15b_and_the_residual_window :
+    (Kill.run false (Kill.init 3) Kill.schedKillWhileWaiting).pc 1 = .holding ∧
+    (Kill.run false (Kill.init 3) Kill.schedKillWhileWaiting).killed = true ∧
+    (Kill.run false (Kill.init 2) Kill.schedKillDuringTry).pc 1 = .holding ∧
+    (Kill.run true (Kill.init 3) Kill.schedKillWhileWaiting).pc 1 = .refused ∧
+    (Kill.run true (Kill.init 3) Kill.schedKillWhileWaiting).holder = none ∧
+    (Kill.run true (Kill.init 2) Kill.schedKillDuringTry).pc 1 = .refused ∧
+    (Kill.run true (Kill.init 2) Kill.schedResidual).pc 1 = .holding ∧
+    (Kill.run true (Kill.init 2) Kill.schedResidual).killed = true := by decide
 
 end HLV
